@@ -119,7 +119,7 @@ fn execute_cont(case: &str) -> String {
     let mut sink = ScriptSink::new(script, FlushResp::Ok, &[]);
     let log = run_session_continue(kind, &mut sink, &kvs);
     let consumed = sink.pos > k;
-    let complete = sink.data == r.bytes && sink.flushes >= 1;
+    let complete = sink.data == r.bytes && sink.flushes >= 1 && sink.unflushed == 0;
     let s = match log.fin.as_deref() {
         Some("ok") => {
             if complete {
@@ -243,7 +243,7 @@ impl Prop for P {
             statuses.push(f);
         }
         let first_err = statuses.iter().position(|st| **st != Status::Ok);
-        let complete = s.data.len() == npre + r.bytes.len() && s.data[..npre] == c.prefill[..] && s.data[npre..] == r.bytes[..] && s.flushes >= 1;
+        let complete = s.data.len() == npre + r.bytes.len() && s.data[..npre] == c.prefill[..] && s.data[npre..] == r.bytes[..] && s.flushes >= 1 && s.unflushed == 0;
         let spec = match first_err {
             Some(i) => match statuses[i] {
                 Status::Io(k) => {
